@@ -16,7 +16,7 @@ var (
 	lvals    = []string{"1", "2"}
 	outKeys  = []string{"k1", "k2", "k3", "k4"}
 	vals     = []string{"v1", "v2", "v3"}
-	atomPool = []Atom{{Kind: "key"}, {Kind: "selects"}, {Kind: "selectsNE"}, {Kind: "label"}, {Kind: "nsIndex"}, {Kind: "valIndex"}, {Kind: "keys"}, {Kind: "objName"},
+	atomPool = []Atom{{Kind: "key"}, {Kind: "selects"}, {Kind: "selectsNE"}, {Kind: "label"}, {Kind: "nsIndex"}, {Kind: "valIndex"}, {Kind: "outIndex"}, {Kind: "keys"}, {Kind: "objName"},
 		{Kind: "generic", N: 0}, {Kind: "generic", N: 1}, {Kind: "generic", N: 2}}
 )
 
@@ -40,7 +40,7 @@ func genTransform(r *wire.Rng) Transform {
 			b := wire.Pick(r, atomPool)
 			// krt allows one of key / index per fetch (key+index panics, a second index replaces the first)
 			pre := func(k string) bool {
-				return k == "key" || k == "nsIndex" || k == "valIndex" || k == "keys" || k == "objName"
+				return k == "key" || k == "nsIndex" || k == "valIndex" || k == "outIndex" || k == "keys" || k == "objName"
 			}
 			bad := b.Kind == f[0].Kind && b.Kind != "generic" || (pre(b.Kind) && pre(f[0].Kind)) ||
 				(b.Kind == "generic" && f[0].Kind == "generic")
@@ -126,7 +126,10 @@ func (g *caseGen) tset(o Obj) {
 	g.emit("t.set", o.Token())
 }
 
-func (g *caseGen) emit(toks ...string) { g.lines = append(g.lines, strings.Join(toks, " ")) }
+func (g *caseGen) emit(toks ...string) {
+	g.d.noteOp(toks[0])
+	g.lines = append(g.lines, strings.Join(toks, " "))
+}
 
 func (g *caseGen) primKeys() []string {
 	ks := make([]string, 0, len(g.d.prim))
@@ -606,7 +609,7 @@ func genCase(r *wire.Rng, n int, stream string, w *wire.Out) {
 	}
 	single1 := !g.f6 && r.Chance(8, 100)
 	if single1 {
-		g.t.Multi, g.t.ByVal = false, false
+		g.t.ByVal = false // Multi: krt.NewManyFromNothing, else krt.NewSingleton
 		head[3] = g.t.Token()
 		head = append(head, "single1")
 		g.single1 = true
